@@ -64,11 +64,11 @@ def run(ctx):
     alias_rule(ctx)
 
 
-def key_rule(ctx):
+def key_rule(ctx, only=None, prefix='C05-KEY', floor=20):
     repo, cg = ctx.repo, ctx.cg
     pairs = 0
     for fn in repo.rule_funcs():
-        if fn.parent is not None and False: continue
+        if only is not None and fn.qual not in only: continue
         looks, stores = cache_accesses(fn)
         if not looks or not stores: continue
         g = cg.cfg(fn)
@@ -114,10 +114,10 @@ def key_rule(ctx):
                                                   'the entry is filed under a different key than the one it is asked for, so another input '
                                                   'with that key is served this value' % (v, dn.lineno, head(dn.ast, 70), d, norm(k1)))
             if not ok and exc:
-                ctx.exception('C05-KEY', '%s:%s' % (qual, d), exc)
-                ctx.ob('C05-KEY.lookup-and-store-use-the-same-key', fn, snode, True, 'excepted: ' + exc, nontrivial=False); continue
-            ctx.ob('C05-KEY.lookup-and-store-use-the-same-key', fn, snode, ok, detail, expected='store under exactly the key that was looked up')
-    ctx.floor('C05-KEY', pairs, 20, 'cache lookup/store pairs')
+                ctx.exception(prefix, '%s:%s' % (qual, d), exc)
+                ctx.ob(prefix + '.lookup-and-store-use-the-same-key', fn, snode, True, 'excepted: ' + exc, nontrivial=False); continue
+            ctx.ob(prefix + '.lookup-and-store-use-the-same-key', fn, snode, ok, detail, expected='store under exactly the key that was looked up')
+    ctx.floor(prefix, pairs, floor, 'cache lookup/store pairs')
 
 
 def subst_copies(fn, key):
@@ -352,6 +352,6 @@ MUTANTS = [
     dict(id='C05-m6', file='pony/orm/sqltranslation.py', fn='FuncGetattrMonad.call', old='                translator.fixed_param_values[key] = attrname\n', new='', expect='C05-FIXED.value-read-is-recorded'),
     dict(id='C05-m7', file='pony/utils/utils.py', fn='get_codeobject_id', old='        codeobjects[codeobject_id] = codeobject', new='        pass', expect='C05-PIN.get_codeobject_id'),
     dict(id='C05-m8', file='pony/orm/decompiling.py', fn='decompile', old='key = get_codeobject_id(codeobject)', new='key = id(codeobject)', expect='C05-PIN.ast_cache'),
-    dict(id='C05-m9', file='pony/orm/core.py', fn='Query._get_translator', old='                if val != new_vars[key]:\n                    del database._translator_cache[query_key]\n                    return None, vars.copy()', new='                pass', expect='C05-FIXED.cached-translator'),
+    dict(id='C05-m9', file='pony/orm/core.py', fn='Query._get_translator', old='                if val != new_vars[key]:\n                    database._translator_cache.pop(query_key, None)  # another thread may have removed it already\n                    return None, vars.copy()', new='                pass', expect='C05-FIXED.cached-translator'),
     dict(id='C05-m10', file='pony/orm/core.py', fn='EntityMeta._get_from_identity_map_', old='        cache = entity._database_._get_cache()', new='        cache = entity._database_._get_cache()  # unchanged', benign=True),
 ]
